@@ -475,6 +475,7 @@ def checkCase (lines : Array String) : Array String := Id.run do
   let mut modelG : Option FnGraph := none
   let mut nSessions := 0
   let mut nEvents := 0
+  let mut lightCase := false
   for l in lines.toList.drop 1 do
     let t := toksOf l
     match t with
@@ -494,6 +495,7 @@ def checkCase (lines : Array String) : Array String := Id.run do
       -- growth-series graphs beyond 34 functions: only the cheap specification predicates (C13, C18)
       -- are evaluated on the real data; the model replay (one path query per builder call) is skipped
       let light := decide (34 < bo.n)
+      lightCase := light
       -- (1) model vs implementation
       let (b, mres) := if light then (BState.empty, []) else modelOps ops
       if !light then
@@ -629,7 +631,7 @@ def checkCase (lines : Array String) : Array String := Id.run do
           a := a.cmp id "G-info" "yaml_nodes" (natsText s.1) (natsText (kvCsv rest "yaml_nodes"))
           a := a.cmp id "G-info" "yaml_edges" (edgesText (GraphInfo.deser s).edges) ((kv rest "yaml_edges").getD "")
           a := a.cmp id "G-info" "roundtrip" (toString (GraphInfo.deser s == gi)) ((kv rest "roundtrip_eq").getD "")
-        | none => a := a.cmp id "G-info" "from_graph" "panic" "ok"
+        | none => if !lightCase then a := a.cmp id "G-info" "from_graph" "panic" "ok"
         let nodes := kvCsv rest "nodes"
         let unmap := fun (l : List Nat) => l.map (fun x => (x - 3) / 7)
         a := a.prop id "C17" "nodes mapped in insertion order" (nodes == (List.range bo.n).map (fun i => i * 7 + 3))
